@@ -400,7 +400,7 @@ def run(ctx):
         for job in pjobs:
             for kind, w in job["textual_viols"]:
                 ctx.violation(kind, w)
-    nbatches = ctx.budget(4, 40)
+    nbatches = ctx.budget(4, 30)
     draws = 4
     for b in range(nbatches):
         if ctx.out_of_time(ctx.budget(60, 120)):
